@@ -1,18 +1,54 @@
 /-
-Model of the raw-string scanner `_analyze_string_cmdsubs` (analyzer.py): which
-substrings of a raw text are handed to `analyze` again.  Character for
-character: the `$(`-depth counter ignores quoting, escapes and comments; a
-backtick pairs with the next backtick.
+Model of the raw-string scanner (`_find_cmdsub_end`, `_analyze_string_cmdsubs` in analyzer.py):
+which substrings of a raw text are handed to `analyze` again, and which of them the scanner
+does not vouch for.
 -/
 namespace Dippy
 
-/-- After `$(` at depth `d`: find the matching `)`.  Returns (inner text, rest after `)`). -/
-def findClose : List Char → Nat → List Char → Option (List Char × List Char)
+/-- result of looking for the `)` that closes a `$(` -/
+inductive EndResult where
+  /-- body, rest after the closing paren, reliable -/
+  | found (inner rest : List Char) (reliable : Bool)
+  | none (reliable : Bool)
+  deriving Repr, DecidableEq
+
+/-- skip to the closing `"`: returns (consumed chars incl. the quote, rest, saw-substitution) -/
+def skipDq : List Char → List Char → Bool → Option (List Char × List Char × Bool)
   | [], _, _ => none
-  | '$' :: '(' :: t, d, acc => findClose t (d + 1) ('(' :: '$' :: acc)
-  | ')' :: t, d, acc =>
-      if d ≤ 1 then some (acc.reverse, t) else findClose t (d - 1) (')' :: acc)
-  | c :: t, d, acc => findClose t d (c :: acc)
+  | '"' :: t, acc, sub => some (('"' :: acc).reverse, t, sub)
+  | '\\' :: c :: t, acc, sub => skipDq t (c :: '\\' :: acc) sub
+  | ['\\'], _, _ => none
+  | '`' :: t, acc, _ => skipDq t ('`' :: acc) true
+  | '$' :: '(' :: t, acc, _ => skipDq ('(' :: t) ('$' :: acc) true
+  | c :: t, acc, sub => skipDq t (c :: acc) sub
+
+/-- characters after which a `#` starts a comment -/
+def commentStart (prev : Option Char) : Bool :=
+  match prev with
+  | none => true
+  | some c => c == ' ' || c == '\t' || c == '\n' || c == ';' || c == '(' || c == '&' || c == '|'
+
+/-- `_find_cmdsub_end`: `acc` is the body consumed so far (reversed), `prev` the previous raw character -/
+def findEnd : Nat → List Char → Nat → Bool → Option Char → List Char → EndResult
+  | 0, _, _, rel, _, _ => .none rel
+  | _, [], _, rel, _, _ => .none rel
+  | n + 1, '\\' :: c :: t, d, rel, _, acc => findEnd n t d rel (some c) (c :: '\\' :: acc)
+  | _, ['\\'], _, rel, _, _ => .none rel
+  | n + 1, '\'' :: t, d, rel, _, acc =>
+    let body := t.takeWhile (· != '\'')
+    match t.dropWhile (· != '\'') with
+    | '\'' :: r => findEnd n r d rel (some '\'') ('\'' :: body.reverse ++ '\'' :: acc)
+    | _ => .none false
+  | n + 1, '"' :: t, d, rel, _, acc =>
+    match skipDq t [] false with
+    | some (consumed, r, sub) => findEnd n r d (rel && !sub) (some '"') (consumed.reverse ++ '"' :: acc)
+    | none => .none false
+  | n + 1, '#' :: t, d, rel, prev, acc =>
+    findEnd n t d (if commentStart prev then false else rel) (some '#') ('#' :: acc)
+  | n + 1, '(' :: t, d, rel, _, acc => findEnd n t (d + 1) rel (some '(') ('(' :: acc)
+  | n + 1, ')' :: t, d, rel, _, acc =>
+    if d ≤ 1 then .found acc.reverse t rel else findEnd n t (d - 1) rel (some ')') (')' :: acc)
+  | n + 1, c :: t, d, rel, _, acc => findEnd n t d rel (some c) (c :: acc)
 
 /-- After a backtick: the text up to the next backtick, and the rest after it. -/
 def findTick : List Char → List Char → Option (List Char × List Char)
@@ -20,22 +56,48 @@ def findTick : List Char → List Char → Option (List Char × List Char)
   | '`' :: t, acc => some (acc.reverse, t)
   | c :: t, acc => findTick t (c :: acc)
 
-/-- The scanner loop; `fuel` bounds the number of iterations (each consumes ≥ 1 char). -/
-def scanAux : Nat → List Char → List (List Char)
+/-- what the scanner hands on -/
+inductive ScanItem where
+  /-- a substitution body to analyse; `reliable = false`: an allow verdict for it is not trusted -/
+  | sub (inner : String) (reliable : Bool)
+  /-- a `$(` that could not be closed and contains what the scanner cannot delimit -/
+  | unanalyzable (text : String)
+  deriving Repr, DecidableEq
+
+/-- the scanner loop; `fuel` bounds the number of iterations (each consumes ≥ 1 char) -/
+def scanAux : Nat → List Char → List ScanItem
   | 0, _ => []
   | _, [] => []
   | n + 1, '$' :: '(' :: t =>
-      match findClose t 1 [] with
-      | some (inner, rest) => inner :: scanAux n rest
-      | none => scanAux n ('(' :: t)
+      match findEnd (t.length + 1) t 1 true none [] with
+      | .found inner rest rel => .sub (String.ofList inner) rel :: scanAux n rest
+      | .none rel =>
+        (if rel then [] else [ScanItem.unanalyzable (String.ofList ('$' :: '(' :: t))]) ++ scanAux n ('(' :: t)
   | n + 1, '`' :: t =>
       match findTick t [] with
-      | some (inner, rest) => inner :: scanAux n rest
+      | some (inner, rest) => .sub (String.ofList inner) (!inner.contains '\\') :: scanAux n rest
       | none => scanAux n t
   | n + 1, _ :: t => scanAux n t
 
-/-- The inner command texts `_analyze_string_cmdsubs s` re-analyses, in order. -/
-def scan (s : String) : List String :=
-  (scanAux (s.toList.length + 1) s.toList).map String.ofList
+/-- what `_analyze_string_cmdsubs s` re-analyses, in order -/
+def scanItems (s : String) : List ScanItem := scanAux (s.toList.length + 1) s.toList
+
+/-- `_arith_expansion_texts`: the raw texts of the `$(( … ))` expansions in a word's source -/
+def arithSpan : List Char → Nat → List Char → List Char × List Char
+  | [], _, acc => (acc.reverse, [])
+  | '(' :: t, d, acc => arithSpan t (d + 1) ('(' :: acc)
+  | ')' :: t, d, acc => if d = 0 then (acc.reverse, t.drop 1) else arithSpan t (d - 1) (')' :: acc)
+  | c :: t, d, acc => arithSpan t d (c :: acc)
+
+def arithTextsAux : Nat → List Char → List (List Char)
+  | 0, _ => []
+  | _, [] => []
+  | n + 1, '$' :: '(' :: '(' :: t =>
+    let (body, rest) := arithSpan t 0 []
+    body :: arithTextsAux n rest
+  | n + 1, _ :: t => arithTextsAux n t
+
+def arithTexts (value : String) : List String :=
+  (arithTextsAux (value.toList.length + 1) value.toList).map String.ofList
 
 end Dippy
